@@ -179,8 +179,10 @@ theorem frames_process (s : St) (f : Feed) : Frames s (process s f).1 := by
   · rename_i ad k _
     simp only []
     split
-    · exact frames_enter s ad
-    · exact (frames_enter s ad).trans (frames_finishFrame _ f)
+    · exact frames_finishFrame s f
+    · split
+      · exact frames_enter s ad
+      · exact (frames_enter s ad).trans (frames_finishFrame _ f)
 
 theorem frames_take (s : St) : Frames s (take s).1 := by
   unfold take
@@ -863,6 +865,10 @@ theorem quiet_handle (s : St) (f : Feed) : Quiet (handle s f).2 := by
   cases f with
   | foreign => exact quiet_nil
   | bad => exact quiet_nil
+  | orphan a => simp [handle, Quiet, nFault, nWclose, nOpen, nAnnFalse, List.countP_cons, isFault, isWclose, isOpenCall, isAnnFalse]
+  | undec =>
+    simp only [handle, ensureDev]
+    split <;> simp [Quiet, nFault, nWclose, nOpen, nAnnFalse, List.countP_cons, isFault, isWclose, isOpenCall, isAnnFalse]
   | pw a =>
     simp only [handle, ensureDev]
     split <;> simp [Quiet, nFault, nWclose, nOpen, nAnnFalse, List.countP_cons, isFault, isWclose, isOpenCall, isAnnFalse]
@@ -892,8 +898,10 @@ theorem quiet_process (s : St) (f : Feed) : Quiet (process s f).2.1 := by
   · rename_i ad k _
     simp only []
     split
-    · exact qe ad
-    · exact (qe ad).append (quiet_finishFrame _ f)
+    · exact quiet_finishFrame s f
+    · split
+      · exact qe ad
+      · exact (qe ad).append (quiet_finishFrame _ f)
 
 theorem quiet_take (s : St) : Quiet (take s).2 := by
   unfold take
@@ -1223,6 +1231,8 @@ theorem addrs_handle (s : St) (f : Feed) : addrs s <+: addrs (handle s f).1 := b
   cases f with
   | foreign => exact List.prefix_refl _
   | bad => exact List.prefix_refl _
+  | orphan a => exact List.prefix_refl _
+  | undec => exact ensureDev_prefix _ _
   | pw a =>
     show s.devices.map Dev.addr <+: (updDev (ensureDev s.devices a).1 a _).map Dev.addr
     rw [map_addr_updDev]
@@ -1332,8 +1342,10 @@ theorem addrs_process (s : St) (f : Feed) : addrs s <+: addrs (process s f).1 :=
   · rename_i ad k _
     simp only []
     split
-    · exact addrs_enter s ad
-    · exact List.IsPrefix.trans (addrs_enter s ad) (addrs_finishFrame _ f)
+    · exact addrs_finishFrame s f
+    · split
+      · exact addrs_enter s ad
+      · exact List.IsPrefix.trans (addrs_enter s ad) (addrs_finishFrame _ f)
 
 theorem addrs_take (s : St) : addrs s <+: addrs (take s).1 := by
   unfold take
